@@ -3,6 +3,7 @@ package main
 import (
 	"fmt"
 	"math/rand"
+	"sync/atomic"
 	"time"
 
 	"github.com/brutella/hc/characteristic"
@@ -240,6 +241,18 @@ func inproc(r *vf.Run, subjects []subject) {
 				}
 				if !ok {
 					break // the object may be half-updated: C12's business, start a new sequence
+				}
+			}
+			if !p.pr {
+				// an update whose callbacks panic (the application's own fault, recovered by whoever called): afterwards the
+				// characteristic is as empty as before
+				if lv, has := goodValue(c, sr, fmt.Sprintf("%#v", c.Value)); has {
+					atomic.StoreInt32(&panicInCallbacks, 1)
+					vf.Recover(func() { c.UpdateValue(lv) })
+					vf.Recover(func() { c.UpdateValueFromConnection(lv, peer) })
+					atomic.StoreInt32(&panicInCallbacks, 0)
+					r.Count("updates_whose_callbacks_panicked_on_characteristics_without_pr", 1)
+					checkUnreadable("inproc", s, c, append(append([]string{}, history...), "an update whose callback panicked"))
 				}
 			}
 			if !p.pw || !p.pr {
